@@ -122,6 +122,50 @@ class Check:
             if n > allow:
                 for det in dets[allow:] if allow else dets:
                     violations.append((key, det, n, allow))
+        # re-shaped sites: a finding that no entry covers, against an entry of the *same function and class* that has allowance
+        # left (its site is gone) and the same skeleton - the arithmetic and the constants of the site are what they were, only the
+        # way its operands are obtained was rewritten (`p[i + 1]` in a `while` loop, `p[x_index + 1]` under an iterator)
+        if violations:
+            left2 = OrderedDict()
+            for k in list(reviewed) + [k_ for k_ in known if k_ not in reviewed]:
+                have = len(bykey.get(k, ()))
+                r_ = reviewed[k][0] if k in reviewed else 0
+                k_ = known[k][0] if k in known else 0
+                r_used = min(have, r_)
+                k_used = min(have - r_used, k_)
+                if r_ - r_used > 0:
+                    left2[("reviewed", k)] = r_ - r_used
+                if k_ - k_used > 0:
+                    left2[("known", k)] = k_ - k_used
+            still = []
+            reshaped = []
+            for (key, det, n, allow) in violations:
+                sk = det.get("skel")
+                hit = None
+                if sk:
+                    kp = key.split("|")
+                    for (which, k), spare in left2.items():
+                        if spare <= 0:
+                            continue
+                        p2 = k.split("|")
+                        if len(p2) < 3 or p2[0] != kp[0] or p2[1] != kp[1] or " ~" not in p2[2]:
+                            continue
+                        if p2[2].split(" ~", 1)[1] == sk and p2[3:] == kp[3:]:
+                            hit = (which, k)
+                            break
+                if hit is None:
+                    still.append((key, det, n, allow))
+                    continue
+                left2[hit] -= 1
+                if hit[0] == "reviewed":
+                    n_reviewed += 1
+                else:
+                    n_known += 1
+                    known_lines.append("KNOWN-FINDING: property=%s %s — %s" % (self.prop, hit[1], known[hit[1]][1]))
+                reshaped.append({"finding": key, "covered_by": hit[1], "table": hit[0]})
+            violations = still
+            if reshaped:
+                self.cov["reshaped_sites"] = reshaped
         # moved sites: a finding that no entry covers, in a function h, against an entry of a function f that has allowance left
         # (its site is gone), of the same class and operation, where f calls h -- the site was extracted into a helper
         calls_into = getattr(self, "calls_into", None)
